@@ -247,10 +247,10 @@ var registry = []propertySpec{
 		Harnesses: []harnessSpec{
 			{Name: "VerifC18_Query", Pkg: "q", Quick: tierSpec{Cases: 24}, Thorough: tierSpec{Cases: 24}, Sched: -1,
 				Bounds: "8 queries whose results carry file content (strings, objects, nodes, lists) x 3 tainted values (given name, place, note) with one symbolic byte, written by the html formatter of 'gedcom query'"},
-			{Name: "VerifC18_Publish", Pkg: "html", Quick: tierSpec{Cases: 12}, Thorough: tierSpec{Cases: 12}, Sched: -1,
-				Bounds: "a 3-person / 1-family / 1-source document in which one of 12 value kinds (given name, surname, place, date phrase, note, source title, source property, event value, individual pointer, sex, name type, second name) carries the token Ta<c>nt with c any printable ASCII byte (symbolic); all page groups, show mode; every output byte that depends on c must provably not be one of < > \" ' &"},
-			{Name: "VerifC18_Diff", Pkg: "html", Quick: tierSpec{Cases: 5}, Thorough: tierSpec{Cases: 5}, Sched: -1,
-				Bounds: "the html diff report of the tainted document against the clean one for 5 value kinds"},
+			{Name: "VerifC18_Publish", Pkg: "html", Quick: tierSpec{Cases: 13}, Thorough: tierSpec{Cases: 13}, Sched: -1,
+				Bounds: "a 3-person / 1-family / 1-source document in which one of 13 value kinds (the pointer of an individual without a name, given name, surname, place, date phrase, note, source title, source property, event value, individual pointer, sex, name type, second name) carries the token Ta<c>nt with c any printable ASCII byte (symbolic); all page groups, show mode; every output byte that depends on c must provably not be one of < > \" ' &"},
+			{Name: "VerifC18_Diff", Pkg: "html", Quick: tierSpec{Cases: 7}, Thorough: tierSpec{Cases: 7}, Sched: -1,
+				Bounds: "the html diff report of the tainted document against the clean one for 7 value kinds (names, place, date phrase, event value, the pointer of a named and of a nameless individual)"},
 		},
 		Assumptions: []string{"one tainted byte at a time; html.EscapeString is modelled byte-wise (validated against the real function)"},
 		Outside:     "JavaScript / URL contexts (location.href is checked as an attribute only), multi-byte sequences forming an entity, two tainted values at once, well-nestedness tokenising",
